@@ -20,6 +20,46 @@ TRUSTED_BASE = [
 ]
 
 
+# wall-clock limits of one check (seconds).  On the unchanged tree the slowest quick check takes about 150 s and the
+# slowest thorough check about 2200 s (35 and 80 minutes were measured with four other checks running beside it); a check
+# that is still running after this long on a changed tree is stuck in the changed code or in the harness's own
+# post-processing of its output, and then reports nothing at all - which is a miss, not a pass.
+LIMITS = {'quick': 3600, 'thorough': 6 * 3600}
+
+
+def supervise(prop, tier, seed):
+    """run the check in a child process of its own session; when it does not finish within the limit, stop it and report
+    that the property is no longer shown to hold (no failing input: the run did not get that far)"""
+    import signal
+    import subprocess
+    limit = int(os.environ.get('VERIF_WATCHDOG_S', '0')) or LIMITS[tier]
+    p = subprocess.Popen([sys.executable] + sys.argv, env=dict(os.environ, VERIF_CHILD='1'), start_new_session=True)
+
+    def forward(sig, frame):
+        try:
+            os.killpg(p.pid, signal.SIGKILL)
+        finally:
+            os._exit(128 + sig)
+    signal.signal(signal.SIGTERM, forward)
+    signal.signal(signal.SIGINT, forward)
+    try:
+        return p.wait(timeout=limit)
+    except subprocess.TimeoutExpired:
+        try:
+            os.killpg(p.pid, signal.SIGKILL)
+        except ProcessLookupError:
+            pass
+        p.wait()
+        rep = common.Report(prop, tier, seed)
+        rep.coverage['rule'] = 'the run was stopped by the watchdog before it produced its coverage'
+        rep.coverage['samples'] = []
+        rep.violation({'kind': 'did-not-finish', 'what': 'the check was still running after %d s (limit of the %s tier; on the '
+                       'unchanged tree it finishes in a small fraction of that): it is stuck in the code under test or in '
+                       'the processing of its output, so the property is not shown to hold on this tree' % (limit, tier),
+                       'theorem_or_correspondence': 'every correspondence of %s (none completed)' % prop}, no_input=True)
+        return rep.finish()
+
+
 def main():
     ap = argparse.ArgumentParser()
     ap.add_argument('prop')
@@ -28,6 +68,15 @@ def main():
     ap.add_argument('--seed', type=int, default=int(os.environ.get('VERIF_SEED', '20261001')))
     a = ap.parse_args()
     prop = a.prop
+    if not os.environ.get('VERIF_CHILD'):
+        sys.exit(supervise(prop, a.tier, a.seed))
+    try:
+        # the child does not outlive its supervisor
+        import ctypes
+        import signal
+        ctypes.CDLL('libc.so.6').prctl(1, signal.SIGKILL)
+    except Exception:
+        pass
     rep = common.Report(prop, a.tier, a.seed)
     mod = importlib.import_module('props.' + prop.lower())
     proof_ok = True
